@@ -174,6 +174,9 @@ PLANS["C03"] = {
         step("asan", "firv-views", 0, sub="quads", prop_arg="C04"),
         step("asan", "firv-views", 30000, sub="buffers", prop_arg="C04"),
         step("asan", "firv-views", 0, sub="splits", prop_arg="C14"),
+        # the residue-exhausting generator of C02 (every pixel type x back-end x pass x window length x row residue, sources in
+        # exact-fit allocations) under ASan: an over-read at the end of the last row changes no output and only a red zone sees it
+        step("asan", "firv-core", 90000, prop_arg="C02"),
     ],
     "thorough": [
         step("asan", "firv-views", 1500000, timeout=10000),
@@ -187,6 +190,7 @@ PLANS["C03"] = {
         step("asan", "firv-views", 0, sub="quads", prop_arg="C04"),
         step("asan", "firv-views", 600000, sub="buffers", prop_arg="C04"),
         step("asan", "firv-views", 0, sub="splits", prop_arg="C14", timeout=10000),
+        step("asan", "firv-core", 2000000, prop_arg="C02", timeout=10000),
     ],
 }
 FLOORS["C03"] = {"quick": [
